@@ -115,6 +115,16 @@ CHECKS = {
             "hook oracle). Tie/search: every world built twice in one process, culling as computed vs switched off by the "
             "GWB_VERIF hook, bit-identical answers required around and below the feature.",
             "proof over Reals for the surface pre-test and kd search + culling on/off oracle through the GWB_VERIF hook", "4 C07"),
+    "C08": ("Theorems (Properties_C08.v, over exact reals): orientation tests, on-segment tests and scalar products of coordinate "
+            "differences are invariant under every rotation about the vertical plus translation; so are the Cartesian ridge "
+            "distance and the plume cross-section test (azimuth turned with the world); the polygon test is translation "
+            "invariant wherever the vertex tolerance test agrees; great-circle distances depend on longitude differences only "
+            "and L, L+-360 are one Cartesian point. Not a theorem: rotation invariance of the whole polygon scan, the slab frame, "
+            "rounding - decided by the oracle. Tie: model vs implementation bit for bit on the original and the moved world "
+            "(area features, plumes); search: implementation on world+query vs moved world+moved query, with a 1 cm "
+            "perturbation test to recognise genuine discontinuities. Known finding D21 (trench closest point misses the 2 pi "
+            "alias) is identified at its call site and reported as such.",
+            "proof over Reals of the invariance of the geometric kernels + bit-exact correspondence on moved worlds + moved-world oracle", "4 C08"),
 }
 
 NOT_YET = {
